@@ -747,7 +747,11 @@ static uint64_t fnv(const std::string& s, uint64_t h = 1469598103934665603ULL) {
 
 static std::string seqnames(const Seq& q) { std::string s; for (size_t i = 0; i < q.size(); ++i) { if (i) s += ','; s += q[i]->name; } return s; }
 
-static void viol(const std::string& cfg, const Seq& q, const std::string& cls, const std::string& detail) {
+static bool g_cur_dup = false;   // the sequence being judged repeats a member name inside one object
+
+static void viol(const std::string& cfg, const Seq& q, const std::string& cls0, const std::string& detail) {
+    // the class names the failure family; sequences with a repeated member name form families of their own
+    std::string cls = cls0 + (g_cur_dup ? "+dupkeys" : "");
     // cap per (cfg, class) so that one failure family cannot crowd out the others
     long long& n = g_classviol[cfg + "|" + cls];
     ++n; out().count("violating_cases");
@@ -776,6 +780,7 @@ static std::string errclass(const std::string& m) { std::string k = m.substr(0, 
 
 static void run_sequence(const Seq& q, bool replay, const std::string& only_cfg) {
     Model M = build_model(q);
+    g_cur_dup = M.dup;
     std::string mvt = ::mvt(M.v);
     std::string names;
     // JSON encoders
